@@ -35,14 +35,14 @@
      and reads dependencies in table order; dependency maps, ports and steps are compared as maps (by name) in the
      correspondence.
    * Python dicts cannot hold duplicate keys: duplicate port / step / dependency names are excluded by [ok_wf].
-   * commands and output processors of an ExecuteStep, hardware requirements of a ScheduleStep, port classes with
-     parameters, CWL entities: outside the model.  Configuration objects shared between steps are saved once by the
+   * processors with a target, hardware requirements of a ScheduleStep, port classes with parameters, CWL step and
+     port classes: outside the model.  Configuration objects shared between steps are saved once by the
      code and once per occurrence by this (tree) model; ids of configuration rows are compared up to renaming.
    * Workflow.load reads params.get("input_ports", {}) (commit eb1f2ee): a row written before input ports were
      persisted loads with an empty map; the model's rows always have the field, a missing key is presented to it
      as the empty map. *)
 From Coq Require Import List Bool NArith ZArith Arith.
-From SF Require Import Base.Str DbCache.Model Persist.Model Persist.CfgModel.
+From SF Require Import Base.Str DbCache.Model Persist.Model Persist.CfgModel Persist.TreeModel.
 Import ListNotations.
 Local Open Scope string_scope. Local Open Scope list_scope.
 
@@ -59,7 +59,10 @@ Inductive skind :=
                                             ConditionalStep, LoopOutputStep *)
 | KJobIn (cls : string)                  (* a class whose only parameter is its job port = input dependency "__job__":
                                             subclasses of TransferStep, InputInjectorStep *)
-| KExecute (conns : list (string * string))    (* ExecuteStep: job port, output_connectors; no command, no processors *)
+| KExecute (conns : list (string * string)) (pkeys : list string) (procs : list ptree) (cmd : option ptree)
+                                         (* ExecuteStep: job port, output_connectors, output_processors (a dict of
+                                            command output processor trees, Persist/TreeModel.v), optional command (a
+                                            tree whose children are its command token processors) *)
 | KDeploy (dc : pdeploy)                 (* DeployStep: its DeploymentConfig; connector port = output dependency named
                                             after the deployment *)
 | KSchedule (b : pbinding) (prefix : string) (dirs : list jv).
@@ -78,7 +81,8 @@ Inductive dcomb :=
         (keys : list string) (subs : list dcomb).
 Inductive dparams :=
 | DScatter (size_port : nat) | DGather (depth : Z) (size_port : nat) | DCombP (loop : bool) (c : dcomb)
-| DPlain (cls : string) | DJobIn (cls : string) (job_port : nat) | DExecute (job_port : nat) (conns : list (string * string))
+| DPlain (cls : string) | DJobIn (cls : string) (job_port : nat)
+| DExecute (job_port : nat) (conns : list (string * string)) (pkeys : list string) (procs : list dtree) (cmd : option dtree)
 | DDeploy (deployment : nat) (connector_port : nat)
 | DSchedule (targets filters : list nat) (job_port : nat) (conn_ports : list (string * nat)) (prefix : string) (dirs : list jv).
 
@@ -153,10 +157,12 @@ Definition step_params (pid : string -> option nat) (wid : nat) (s : pstep) (cfg
                   | Some pn => option_map (fun p => (DJobIn cls p, cfg)) (pid pn)
                   | None => None
                   end
-  | KExecute conns => match alookup "__job__" (s_in s) with
-                      | Some pn => option_map (fun j => (DExecute j conns, cfg)) (pid pn)
-                      | None => None
-                      end
+  | KExecute conns pkeys procs cmd =>
+      match alookup "__job__" (s_in s) with
+      | Some pn => option_map (fun j => (DExecute j conns pkeys (map (save_tree (Some wid)) procs)
+                                                  (option_map (save_tree None) cmd), cfg)) (pid pn)
+      | None => None
+      end
   | KDeploy dc => match alookup (dp_name dc) (s_out s) with
                   | Some pn => option_map (fun p => (DDeploy (fst (save_deploy dc cfg)) p, snd (save_deploy dc cfg))) (pid pn)
                   | None => None
@@ -211,7 +217,15 @@ Definition load_kind (tp : list prow) (cfg : cdb) (wid : nat) (p : dparams) : op
   | DCombP lp c => option_map (KComb lp) (load_comb wid c)
   | DPlain cls => Some (KPlain cls)
   | DJobIn cls jp => match row_at tp jp with Some _ => Some (KJobIn cls) | None => None end
-  | DExecute jp conns => match row_at tp jp with Some _ => Some (KExecute conns) | None => None end
+  | DExecute jp conns pkeys dprocs dcmd =>
+      match row_at tp jp, load_trees (Some wid) dprocs with
+      | Some _, Some procs =>
+          match dcmd with
+          | None => Some (KExecute conns pkeys procs None)
+          | Some d => option_map (fun c => KExecute conns pkeys procs (Some c)) (load_tree None d)
+          end
+      | _, _ => None
+      end
   | DDeploy did cp => match load_deploy cfg did, row_at tp cp with
                       | Some dc, Some _ => Some (KDeploy dc)
                       | _, _ => None
@@ -270,7 +284,7 @@ Definition ok_step (names : list string) (s : pstep) : bool :=
   match s_kind s with
   | KScatter => match alookup "__size__" (s_out s) with Some _ => true | None => false end
   | KGather _ => match alookup "__size__" (s_in s) with Some _ => true | None => false end
-  | KJobIn _ | KExecute _ => match alookup "__job__" (s_in s) with Some _ => true | None => false end
+  | KJobIn _ | KExecute _ _ _ _ => match alookup "__job__" (s_in s) with Some _ => true | None => false end
   | KDeploy dc => match alookup (dp_name dc) (s_out s) with Some _ => true | None => false end
   | KSchedule _ _ _ => match alookup "__job__" (s_out s) with Some _ => true | None => false end
   | KComb _ _ | KPlain _ => true
